@@ -25,6 +25,7 @@ type goPanic struct {
 	val  Value  // usually Iface
 	kind string // "nil-deref","index","explicit","div0","typeassert","closed-chan",...
 	msg  string
+	stack string
 }
 
 func (g *goPanic) String() string {
@@ -190,7 +191,7 @@ func (p *Path) callFunction(th *Thread, caller *frame, fn *ssa.Function, args []
 		return info.intrinsic(fr, fn, args)
 	}
 	if info.nop {
-		return zeroResults(fn.Signature)
+		return nopResults(fn.Signature)
 	}
 	if fn.Blocks == nil {
 		if fn.Pkg != nil {
@@ -238,6 +239,32 @@ func (p *Path) callFunction(th *Thread, caller *frame, fn *ssa.Function, args []
 	return fr.result
 }
 
+// nopResults: results of a skipped function (logging packages). Pointers to
+// structs are allocated (zero struct) rather than nil, so that promoted-field
+// accesses on e.g. a logger obtained from a skipped constructor do not fault.
+func nopResults(sig *types.Signature) Value {
+	one := func(t types.Type) Value {
+		if pt, ok := t.Underlying().(*types.Pointer); ok {
+			if _, isStruct := pt.Elem().Underlying().(*types.Struct); isStruct {
+				var cell Value = zero(pt.Elem())
+				return &cell
+			}
+		}
+		return zero(t)
+	}
+	switch sig.Results().Len() {
+	case 0:
+		return nil
+	case 1:
+		return one(sig.Results().At(0).Type())
+	}
+	tu := make(Tuple, sig.Results().Len())
+	for i := range tu {
+		tu[i] = one(sig.Results().At(i).Type())
+	}
+	return tu
+}
+
 func zeroResults(sig *types.Signature) Value {
 	switch sig.Results().Len() {
 	case 0:
@@ -254,8 +281,11 @@ func (fr *frame) runFrame() {
 			return // normal return
 		}
 		r := recover()
-		switch r.(type) {
+		switch gp := r.(type) {
 		case *goPanic:
+			if gp.stack == "" {
+				gp.stack = fr.p.stack(fr)
+			}
 		default:
 			panic(r) // engine-level signal or Go runtime bug: propagate, no defers
 		}
@@ -365,6 +395,13 @@ func (p *Path) call(fr *frame, fn Value, args []Value) Value {
 		return p.callBuiltin(fr, f, args)
 	case NilFunc:
 		panic(&goPanic{kind: "nil-deref", msg: "call of nil func value"})
+	case *timerThunk:
+		if st, ok := (*f.cell).(Struct); ok && len(st) > 1 {
+			if t, ok := st[1].(*Term); ok && t.IsTrue() {
+				return nil // stopped before it fired
+			}
+		}
+		return p.call(fr, f.cb, nil)
 	}
 	panic(unsupported(fmt.Sprintf("call of %T", fn)))
 }
